@@ -300,16 +300,24 @@ def corr_update_list(ctx, B):
             items.append([k, s])
         coins = [rng.randint(0, 1) for _ in range(len(items))]
         case = dict(max=mc, items=items, coins=coins)
+        if rng.random() < 0.5:     # nearly tied densities at several scales (the model compares their ranks)
+            kind = rng.choice([k for k in K.NEAR_TIE_KINDS if k not in ("neg7", "negbig", "zeromix")])
+            case["values"] = K.near_tie_values(rng, kind, list(range(17)))
+            for it in items:
+                it[0] //= 4
+        vals = case.get("values")
+        dens = (lambda k: vals[k]) if vals else (lambda k: k / 16)
+        back = {dens(k): k for k in range(17)}
         K.chk_update_list(ctx, case)
         # step-wise comparison with the model
         lst = []
         with K.scripted(coins) as sc:
             for k, s in items:
-                before = [[int(round(d * 16)), ints(x)] for d, x in lst]
+                before = [[back[d], ints(x)] for d, x in lst]
                 k0 = sc.k
                 coin = bool(coins[k0] % 2) if k0 < len(coins) else False
-                subgraph._update_subgraphs_list(lst, (k / 16, list(s)), mc)
-                after = [[int(round(d * 16)), ints(x)] for d, x in lst]
+                subgraph._update_subgraphs_list(lst, (dens(k), list(s)), mc)
+                after = [[back.get(d, -1), ints(x)] for d, x in lst]
                 B.add("_update_subgraphs_list", dict(op="apps.updateList", l=before, t=[k, s], max=mc, coin=coin),
                       dict(l=after, used=sc.k > k0))
         ctx.count("update_list", ("ul", case), len(items) >= 3, sample=case)
@@ -479,6 +487,27 @@ def oracle_similarity_extras(ctx):
         o2s = [[rng.choice(orbs), rng.randint(0, 10)] for _ in range(3)]
         K2.chk_similarity_sequence(ctx, dict(orbit_calls=oc, event_calls=ec, sample_calls=sc, o2s=o2s))
     ctx.count("similarity-extras", None, False)
+    K2.chk_is_clique_big(ctx, dict(n=460, missing=[sorted(rng.sample(range(460), 2))]))
+    K2.chk_is_clique_big(ctx, dict(n=460, missing=[]))
+
+
+def corr_big_counts(ctx, B):
+    """photon counts / bounds of order 1e5..1e6 that differ by one (exact integer comparisons)"""
+    rng = ctx.rng
+    for _ in range(ctx.n(150, 800)):
+        base = rng.choice([10 ** 5, 10 ** 6, 10 ** 7])
+        L = rng.randint(1, 4)
+        samples = [[rng.choice([0, 0, 1, base - 1, base, base + 1]) for _ in range(L)] for _ in range(rng.randint(1, 5))]
+        tot = sum(rng.choice(samples))
+        lo, hi = sorted([max(0, tot + rng.randint(-1, 1)), max(0, sum(rng.choice(samples)) + rng.randint(-1, 1))])
+        m = base + rng.randint(-1, 1)
+        case = dict(samples=samples, min=lo, max=hi, m=m)
+        ps, conv = K2.chk_big_counts(ctx, case)
+        B.add("postselect", dict(op="apps.postselect", samples=samples, min=lo, max=hi), ps)
+        for s, (e, o) in zip(samples, conv):
+            B.add("sample_to_event", dict(op="apps.sampleToEvent", s=s, m=m), e)
+            B.add("sample_to_orbit", dict(op="apps.sampleToOrbit", s=s), o)
+        ctx.count("big_counts", ("bc", case), True, sample=case)
 
 
 def corpus_cases():
@@ -508,6 +537,7 @@ def run(ctx, sf):
         corr_graph_case(ctx, B, K.rand_graph(rng, n, "range"), rng)
     corr_update_list(ctx, B)
     corr_sample(ctx, B)
+    corr_big_counts(ctx, B)
     B.flush()
     oracle_big(ctx)
     oracle_clique_search(ctx)
